@@ -69,6 +69,16 @@ func (tw *tokenWorld) pickExToken(ch *kernel.Chooser) *exToken {
 		t.str, t.declared, t.kind, t.live = g.access, oidc.RefreshTokenType, "access-declared-refresh", false
 	case x == 10:
 		t.str, t.declared, t.kind, t.live = "garbage-token", []oidc.TokenType{oidc.AccessTokenType, oidc.RefreshTokenType, oidc.IDTokenType, oidc.JWTTokenType}[ch.Int(4)], "garbage", false
+	case x == 11 && ch.Bool(2, 3):
+		// a token of the third-party issuer that only a storage with the verifier capability knows, declared as a JWT:
+		// the provider itself cannot recognise it; it counts exactly when that storage vouches for it
+		third, alive := ch.Pick("u1", "u2", "nobody"), ch.Bool(2, 3)
+		t.str, t.declared, t.kind, t.subject = world.ThirdPartyToken(third, alive), oidc.JWTTokenType, "third-party", third
+		t.live = w.Caps.ExchangeVerifier && alive && third != "nobody"
+		if !alive {
+			t.kind = "third-party-dead"
+		}
+		tw.o.Probe("third-party-tokens-presented")
 	default: // a JWT of another issuer, signed with a key this provider does not publish
 		k := world.FixtureKey("rsa", 5)
 		signer, _ := jose.NewSigner(jose.SigningKey{Algorithm: jose.RS256, Key: jose.JSONWebKey{Key: k.Key, KeyID: "foreign"}}, (&jose.SignerOptions{}).WithType("JWT"))
@@ -150,6 +160,9 @@ func (tw *tokenWorld) exchange(ch *kernel.Chooser) string {
 		return desc
 	}
 	tw.o.Probe("exchange-success")
+	if subj.kind == "third-party" || (actor != nil && actor.kind == "third-party") {
+		tw.o.Probe("exchange-with-third-party-token-success")
+	}
 	// ---- success: every precondition of the statement must hold ----
 	allowed, und, why := authAllowed(w, p, false, w.Router == "B" && w.Conf.AuthMethodPrivateKeyJWT, time.Now())
 	if !und && !allowed {
@@ -290,6 +303,7 @@ func RunC15(t *testing.T, spec kernel.Spec) *kernel.Outcome {
 	caps := world.Caps{ClientCredentials: true, TokenExchange: true, Device: false}
 	o := inBubble(t, spec, func(o *kernel.Outcome, tape *kernel.Tape) {
 		caps.FromRequest = tape.Sub("cfg2").Bool(1, 3)
+		caps.ExchangeVerifier = tape.Sub("cfg-tev").Bool(1, 2)
 		w, err := world.NewStd(o, tape, world.StdOptions{Router: spec.Params["router"], ForceCaps: &caps})
 		if err != nil {
 			o.Infra = "world: " + err.Error()
